@@ -18,7 +18,7 @@ def build(repo, findings):
     u.add(ex.item(r'^enum ExpansionPiece ', 'ExpansionPiece').r1(keep_derive=()).r11())
     u.add(ex.item(r'^struct WordField\(', 'WordField').r1(keep_derive=('Default',)).r11().resub(r'struct WordField\(Vec', 'struct WordField(pub Vec', 'R11', 'tuple field made visible'))
     wf = ex.item(r'^impl WordField ', 'impl WordField').r1()
-    wf.keep_only_fns(['new'], 'len() uses Iterator::fold with a closure — NOT verified')
+    wf.keep_only_fns(['new'], 'len() uses Iterator::fold with a closure — replaced by a stub whose contract is read off its body (contracts/split/spec.rs)')
     wf.sig('new', ret='r', ensures=[C('aux new-empty', 'r.0@.len() == 0')])
     u.add(wf)
     u.add(ex.item(r'^struct Expansion ', 'Expansion').r1(keep_derive=()).r11().pub_fields())
@@ -89,7 +89,7 @@ proof { assert(gf.0@.%s =~= fv(gf)); assert(pre == sf_pieces(st0, fv(gf), ifs@))
     u.assume('assume_specification', 'str::contains(char) is an uninterpreted membership predicate of the IFS string (so the proof holds for EVERY IFS); std::mem::take returns the old value and leaves Default::default()')
     u.assume('axiom', 'char::to_string() is the one-character string (Display for char); derived Default of WordField is the empty Vec')
     u.assume('uninterp', 'str_contains_spec, default_spec, Shell::ifs_spec')
-    u.assume('external_body', 'Shell::ifs() is a stub returning the IFS string (real return type Cow<str>); WordExpander is projected to its shell reference')
+    u.assume('external_body', 'Shell::ifs() is a stub returning the IFS string (real return type Cow<str>); WordExpander is projected to its shell reference; WordField::len is a stub read off its body (bytes of all pieces together)')
     u.assume('stub', 'brace / tilde / parameter / command expansion, coalescing and pathname expansion are NOT verified (C05 is decided for the field-splitting stage only)')
     u.expected_min_fns = 25
     return u
